@@ -85,3 +85,32 @@ Definition try_new_sorting (am : addrmap) (s : shape) : bool :=     (* boxed.rs 
   negb (adjdup (raddr am) (isort (raddr am) (get_ptrs am s))).
 Definition try_new_retry (am : addrmap) (s : shape) : bool :=       (* retry.rs try_new: is_some *)
   negb (scandup (raddr am) [] (get_ptrs am s)).
+
+(* ---------------------------------------------------------------- C07 vocabulary *)
+(* what a collection lists, at the granularity at which happylock sees it: a leaf lock, or an owned
+   collection as one indivisible unit *)
+Inductive tref := TL (l : lock) | TU (u : uid).
+
+Definition tref_eqb (a b : tref) : bool :=
+  match a, b with
+  | TL x, TL y | TU x, TU y => Nat.eqb x y
+  | _, _ => false
+  end.
+
+Definition tref_of (r : rawref) : tref := match r with RLeaf _ l => TL l | ROwned u _ => TU u end.
+Definition taddr (am : addrmap) (x : tref) : nat := match x with TL l => laddr am l | TU u => uaddr am u end.
+
+(* the locks and units reachable through the declared structure, each as often as it is reachable *)
+Fixpoint trefs (s : shape) : list tref :=
+  match s with
+  | SLeaf _ l => [TL l]
+  | SSeq ss => flat_map trefs ss
+  | SBoxed s' | SRefC s' | SRetry s' | SPoison _ s' => trefs s'
+  | SOwned u _ => [TU u]
+  end.
+
+Fixpoint tmem (x : tref) (l : list tref) : bool :=
+  match l with [] => false | y :: r => tref_eqb x y || tmem x r end.
+Fixpoint nodupb (l : list tref) : bool :=
+  match l with [] => true | x :: r => negb (tmem x r) && nodupb r end.
+
